@@ -1,0 +1,13 @@
+//go:build verif
+
+package casket
+
+// VerifC17Servers returns the servers of a running instance (verification builds only;
+// used to read the effective settings of the listeners an instance created).
+func VerifC17Servers(i *Instance) []Server {
+	out := make([]Server, 0, len(i.servers))
+	for _, sl := range i.servers {
+		out = append(out, sl.server)
+	}
+	return out
+}
